@@ -19,6 +19,7 @@ import (
 	"sync/atomic"
 
 	"github.com/CrowdStrike/csproto"
+	"google.golang.org/protobuf/encoding/protowire"
 
 	"verif/mc/lib/ev"
 	"verif/mc/lib/refwire"
@@ -153,6 +154,22 @@ func safeEncode(buf []byte, p *plan, m any, sentinel bool) (err error, pan strin
 		e.EncodeBool(sentinelNum, true)
 	}
 	return err, ""
+}
+
+// safeRTMarshal: the owning runtime's own Marshal of a freshly made instance of the value (plain flavours only; wrapper
+// flavours have no runtime of their own).
+func safeRTMarshal(v *val) (b []byte, err error) {
+	switch v.flavour {
+	case "googlev2-plain", "gogo-plain", "googlev1-legacy":
+	default:
+		return nil, fmt.Errorf("no owning runtime for flavour %s", v.flavour)
+	}
+	err = safeRT(func() error {
+		var e error
+		b, e = rtMarshal(v.rt, v.mk())
+		return e
+	})
+	return b, err
 }
 
 func safeMarshal(m any) (b []byte, err error, pan string) {
@@ -624,6 +641,29 @@ func main() {
 		v := &vals[i]
 		if v.skip != "" {
 			skipped = append(skipped, v.id()+": "+v.skip)
+			// The oracle bytes could not be established for this value. If the owning runtime marshals the very same value
+			// without complaint, the value is a valid message, and a valid message must be encodable as a nested field: try
+			// it, and report what EncodeNested does (an error / a panic / bytes the runtime does not read back as the value).
+			if !v.nilMsg {
+				if rb, rerr := safeRTMarshal(v); rerr == nil {
+					buf := make([]byte, len(rb)+64)
+					e := csproto.NewEncoder(buf)
+					var eerr error
+					pan := ""
+					func() {
+						defer func() {
+							if x := recover(); x != nil {
+								pan = fmt.Sprint(x)
+							}
+						}()
+						eerr = e.EncodeNested(1, v.mk())
+					}()
+					want := append(protowire.AppendVarint(protowire.AppendTag(nil, 1, protowire.BytesType), uint64(len(rb))), rb...)
+					if pan != "" || eerr != nil || (v.det && !bytes.HasPrefix(buf, want)) {
+						r.Fail("EncodeNested/"+v.flavour+"/valid-message-cannot-be-encoded", v.id(), detail{Flavour: v.flavour, Value: v.name, Msg: fmt.Sprintf("precondition: %s; EncodeNested: err=%v panic=%q; the owning runtime marshals the same value to %d bytes", v.skip, eerr, pan, len(rb)), Got: hexCut(buf[:min(len(buf), len(want)+4)]), Want: hexCut(want)})
+					}
+				}
+			}
 			continue
 		}
 		flavourValues[v.flavour]++
